@@ -466,7 +466,10 @@ pub fn execute(h: &History, crash_at: u64, variant: Option<(usize, bool)>, down_
     let mut fin = Abstract::default();
     if ex.violations.is_empty() && ex.tower.is_some() {
         let mut ok = true;
-        for _ in 0..2 {
+        // after a lossy reorg the node may have lost a penalty that sits in no disconnected block (its parent went away);
+        // the tower puts it back with its periodic re-broadcast, a few blocks later: give every run that long
+        let rounds = if h.ops.iter().any(|o| matches!(o, Op::Reorg { evict: true, .. })) { 9 } else { 2 };
+        for _ in 0..rounds {
             if let Err(p) = ex.tower.as_mut().unwrap().poll() {
                 ex.violations.push(Violation { property: "C11".into(), signature: crate::panics::signature(&p), message: format!("chain processing aborted: {p}") });
                 ok = false;
@@ -964,7 +967,7 @@ pub fn run(ctx: &Ctx) -> i32 {
     ev.assumptions = vec![
         "sqlite's own atomic commit and the file system are trusted (a crash never tears a single statement)".into(),
         "the tower is booted by a copy of main.rs's bootstrap".into(),
-        "after the last op both runs get two more blocks and polls, so pending penalties confirm; tracker heights are compared as confirmed/unconfirmed".into(),
+        "after the last op both runs get two more blocks and polls (nine after a lossy reorg, so that the periodic re-broadcast has happened), so pending penalties confirm; tracker heights are compared as confirmed/unconfirmed".into(),
     ];
     runner::conclude(ctx, "C03", stats, ev, started)
 }
